@@ -121,8 +121,8 @@ func c10Conservation(e *Env, rg *Rig, lifecycle bool) {
 		// buffering members some packets may be stuck in queues at Close: only check uniqueness then
 		buffered := false
 		for _, k := range cfg.Kinds {
-			if rigBuffering[k] {
-				buffered = true
+			if rigBuffering[k] || k == "nack_resp" {
+				buffered = true // (a retransmission re-sends a stored packet, possibly with the number it already had)
 			}
 		}
 		twccCount := 0
